@@ -229,8 +229,14 @@ SPECS = [
          stmts=[13, 14, 15, 16], result=["attribute_data"], note="cut: the attribute block written by `format()`"),
     Spec(GROUP, "t3_rd_csum", T3, "Type3Tag.NDEF._read_attribute_data", [("data", BYTES)],
          whole=True, expr='sum(data[0:14]) != unpack(">H", data[14:16])[0]', note="cut: checksum test of the attribute block"),
-    Spec(GROUP, "t3_rd_attr", T3, "Type3Tag.NDEF._read_attribute_data", [("data", BYTES)], stmts=[2, 3, 4],
+    Spec(GROUP, "t3_rd_attr", T3, "Type3Tag.NDEF._read_attribute_data", [("data", BYTES)], stmts=[3, 4, 5],
          result=["ver", "nbr", "nbw", "nmaxb", "writef", "rwflag", "length"], note="cut: the attribute fields"),
+    Spec(GROUP, "t3_rd_attr_none", T3, "Type3Tag.NDEF._read_attribute_data", [("data", OPT(BYTES))], whole=True, expr="data is None",
+         note="cut: the test for an attribute block that `read_from_ndef_service` could not verify (None): no attributes"),
+    Spec(GROUP, "t3_rd_block_step", T3, "Type3Tag.NDEF._read_ndef_data", [("data", BYTES), ("block_data", OPT(BYTES))],
+         path=[(9, "body")], stmts=[3, 4], result=["data"], ret=OPT(BYTES),
+         note="cut: one round of the block loop after `block_data = read_from_ndef_service(..)`: None ends the read with "
+              "no data (the function returns None), otherwise the blocks are appended"),
 ]
 P = "NfcVerif.FnBridge.TagCmd."
 BRIDGE = {
@@ -256,20 +262,21 @@ BRIDGE = {
         "t3_wr_last_block_bridge", "t3_pad_bridge", "t3_wr_chunk_bridge", "t3_sys_bridge",
         "t1_read_block_cmd_bridge", "t1_read_segment_cmd_bridge", "gen_segLoop", "gen_stageB_cmd",
         "t3_polling_rsp_bridge", "gen_polling_parts", "t3_wr_attr_bridge", "t3_fmt_attr_bridge", "t3_rd_attr_bridge",
-        "t3_rd_csum_short", "t1_need_rall_bridge", "t1_need_block15_bridge", "t1_rall_short_bridge",
-        "t1_rall_hdr_bridge", "t1_rall_mem_bridge", "gen_stageA", "gen_stageB_cond", "t2_lock_first_bridge",
-        "t2_lock_bits_bridge", "t2_lock_default_cond_bridge", "t2_lock_default_addr_bridge",
-        "t2_lock_default_bits_bridge", "gen_defaultLocks", "t2_lock_byte_size_bridge", "t2_lock_byte_index_bridge",
-        "t2_lock_bit_bridge", "le16_at", "t3e_rd_service_code_bridge", "t3e_wr_service_code_bridge",
-        "t3e_rd_block_number_bridge", "t3e_wr_block_number_bridge", "t3e_rd_service_index_bridge",
-        "t3e_wr_service_index_bridge", "t3e_rd_short_elem_bridge", "t3e_wr_short_elem_bridge", "t3e_status",
-        "t3e_rd_status_a3_bridge", "t3e_rd_status_a2_bridge", "t3e_wr_status_a3_bridge", "t3e_wr_status_a2_bridge",
-        "gen_parseBlocks_step", "t3e_rsp_frame", "t3e_read_rsp_bridge", "t3e_write_rsp_bridge",
-        "t3e_polling_rsp_bridge", "t3e_polling_bridge", "t3e_cmd_bad_len_bridge", "gen_cmd_len_model",
-        "t3e_idm_match_bridge", "t3e_wr_data_len_bridge", "t3e_wr_block_bridge", "gen_frame_eq_T3Emu",
-        "gen_block_code_T3Emu", "t1_place_bridge", "t1_term_bridge", "t2_term_bridge", "t2_place_bridge",
-        "gen_t2_phase2", "t2_len_pages_bridge", "t2_len_split_bridge", "gen_phase3a_split", "t2_nlen_bridge",
-        "t2_read_tlv_bridge", "readTlvRef_ok", "gen_t1_phase2")],
+        "t3_rd_attr_none_bridge", "t3_rd_block_step_bridge", "gen_rd_block_none", "t3_rd_csum_short",
+        "t1_need_rall_bridge", "t1_need_block15_bridge", "t1_rall_short_bridge", "t1_rall_hdr_bridge",
+        "t1_rall_mem_bridge", "gen_stageA", "gen_stageB_cond", "t2_lock_first_bridge", "t2_lock_bits_bridge",
+        "t2_lock_default_cond_bridge", "t2_lock_default_addr_bridge", "t2_lock_default_bits_bridge",
+        "gen_defaultLocks", "t2_lock_byte_size_bridge", "t2_lock_byte_index_bridge", "t2_lock_bit_bridge", "le16_at",
+        "t3e_rd_service_code_bridge", "t3e_wr_service_code_bridge", "t3e_rd_block_number_bridge",
+        "t3e_wr_block_number_bridge", "t3e_rd_service_index_bridge", "t3e_wr_service_index_bridge",
+        "t3e_rd_short_elem_bridge", "t3e_wr_short_elem_bridge", "t3e_status", "t3e_rd_status_a3_bridge",
+        "t3e_rd_status_a2_bridge", "t3e_wr_status_a3_bridge", "t3e_wr_status_a2_bridge", "gen_parseBlocks_step",
+        "t3e_rsp_frame", "t3e_read_rsp_bridge", "t3e_write_rsp_bridge", "t3e_polling_rsp_bridge",
+        "t3e_polling_bridge", "t3e_cmd_bad_len_bridge", "gen_cmd_len_model", "t3e_idm_match_bridge",
+        "t3e_wr_data_len_bridge", "t3e_wr_block_bridge", "gen_frame_eq_T3Emu", "gen_block_code_T3Emu",
+        "t1_place_bridge", "t1_term_bridge", "t2_term_bridge", "t2_place_bridge", "gen_t2_phase2",
+        "t2_len_pages_bridge", "t2_len_split_bridge", "gen_phase3a_split", "t2_nlen_bridge", "t2_read_tlv_bridge",
+        "readTlvRef_ok", "gen_t1_phase2")],
     "properties": ["C16", "C08", "C01", "C02", "C03", "C07"],
 }
 
@@ -592,5 +599,8 @@ MUTATIONS = [
     ("t2_sector_ack", "truthiness test added", "if len(rsp) == 1 and rsp[0] == 0x0A:", "if rsp[0:1] and len(rsp) == 1 and rsp[0] == 0x0A:"),
     ("t2_term_cond", "condition gains an operand", "if offset < tag_memory[14] * 8 + 16:", "if offset < tag_memory[14] * 8 + 16 or not skip_bytes:"),
     ("t1_cc_magic", "condition gains an operand", "if tag_memory[8] != 0xE1:", "if tag_memory[8] != 0xE1 and tag_memory[8] != 0xE0:"),
+    ("t3_rd_attr_none", "condition gains an operand", "if data is None:", "if data is None or len(data) > 16:"),
+    ("t3_rd_block_step", "unverified blocks end the loop but keep the data", "                    return None\n                data += block_data",
+     "                    break\n                data += block_data"),
     ("t3_check_rsp", "NEUTRAL log text", '"incorrect response length {0}"', '"bad response length {0}"'),
 ]
